@@ -87,6 +87,11 @@ def run(model: Model, rep: Report) -> None:
     r4.check("foriinrange(cast(int,char1),cast(int,char2)+1):widths[i]=(w,(vx,vy))" in s2 and "fori,(w,vx,vy)inenumerate(choplist(3,v)):widths[cast(int,char1)+i]=(w,(vx,vy))" in s2.replace("for(i,(w,vx,vy))in", "fori,(w,vx,vy)in"), site(gw2), gw2.qualname, "W2: ranges inclusive; array form takes (w, vx, vy) triples", why="changed")
     # ---------------------------------------------------------------- R6
     char_width_rule(model, rep, "C07-R6")
+    _decode_fsm(model, rep)
+    # collection Unicode maps are memoised per name: the stored pair must not depend on the orientation requested first (shared with C12-R7)
+    from .c12 import memo_purity_rule
+
+    memo_purity_rule(model, rep, "C07-R9")
     # Type0: the descendant dictionary handed to the CID font is this font's own copy
     from .c12 import doc_mutation_rule
 
@@ -132,3 +137,37 @@ def char_width_rule(model: Model, rep: Report, rid: str) -> None:
     r6.check(okt, site(cw), cw.qualname, "a looked-up width is used whenever it is present (`is not None`), including an explicit 0", why=f"tests {[unparse(t.test) for t in tests]}: a zero width in the table falls through to the default width")
     s6 = "".join(unparse(cw.node).split())
     r6.check("cid_width=safe_float(self.widths.get(cid))" in s6 and "returnself.default_width*self.hscale" in s6, site(cw), cw.qualname, "width of a code/CID = table entry if present, else the default, times the glyph-space scale", why="changed")
+
+
+def _decode_fsm(model: Model, rep: Report) -> None:
+    """C07-R8: segmentation of a string by a variable-length CMap is a walk down the nested code table; every byte either
+    descends, emits (and returns to the root) or - when it has no entry - returns to the root."""
+    from ..cfg import build_cfg
+
+    r8 = rep.rule("C07-R8", "TYPESTATE", "CMap.decode: every byte moves the table cursor - descend, emit and restart, or restart on an unassigned byte; no path leaves the cursor where it was", 3)
+    f = model.func(CM + "CMap.decode")
+    loops = [n for n in walk_no_nested(f.node) if isinstance(n, ast.For)]
+    if len(loops) != 1:
+        raise AnchorMissing("CMap.decode: loop not found")
+    lp = loops[0]
+    pre = [n for n in f.node.body if isinstance(n, ast.Assign) and isinstance(n.targets[0], ast.Name) and unparse(n.value) == "self.code2cid"]  # type: ignore[attr-defined]
+    if not pre:
+        raise AnchorMissing("CMap.decode: cursor initialisation not found")
+    cur = pre[0].targets[0].id
+    fn = ast.FunctionDef(name="_iter", args=f.node.args, body=lp.body, decorator_list=[], lineno=lp.lineno, col_offset=0)  # type: ignore[attr-defined]
+    g = build_cfg(fn, exc_edges=False)
+
+    def assigns_cur(n) -> bool:
+        return n.kind == "stmt" and isinstance(n.ast, (ast.Assign, ast.AnnAssign)) and unparse(n.ast.targets[0] if isinstance(n.ast, ast.Assign) else n.ast.target) == cur
+
+    wit = g.all_path_pass(g.entry, assigns_cur)
+    r8.check(wit is None, site(f, lp), f.qualname, f"every path through the loop body assigns the cursor `{cur}`", why="a path leaves the cursor unchanged: after a lead byte followed by a byte without an entry, the next bytes are read as trail bytes of the stale lead byte")
+    ys = [n for n in g.nodes if n.kind == "stmt" and n.ast is not None and any(isinstance(x, ast.Yield) for x in ast.walk(n.ast))]
+    ok = bool(ys)
+    for y in ys:
+        w = g.all_path_pass(y.id, lambda n: assigns_cur(n) and unparse(n.ast.value) == "self.code2cid")
+        ok = ok and w is None
+    r8.check(ok, site(f, ys[0].ast) if ys else site(f), f.qualname, "after emitting a CID the cursor returns to the root table", why="a yield is not followed by the reset on every path")
+    # the only non-root value the cursor takes is the entry just looked up
+    vals = {"".join(unparse(n.ast.value).split()) for n in g.nodes if assigns_cur(n)}
+    r8.check(vals <= {"self.code2cid", "cast(Dict[int,object],x)", "x"} and "self.code2cid" in vals and len(vals) >= 2, site(f, lp), f.qualname, "the cursor is either the root or the sub-table found for the byte", why=f"cursor values {sorted(vals)}")
